@@ -147,7 +147,7 @@ func runSweeperSim(env *RunEnv) {
 	var t0 time.Time
 	started := false
 	prevState := before
-	for step := 0; step < 5000 && !done; step++ {
+	for step := 0; step < 40000 && !done; step++ {
 		parked := sim.Quiesce()
 		if done {
 			break
@@ -166,7 +166,8 @@ func runSweeperSim(env *RunEnv) {
 			continue
 		}
 		// between two slices: the application may commit
-		if tk.point == "sleep:wake" && t.Chance("sw-app", 600) {
+		// (also right before and after each of the sweeper's transactions)
+		if (tk.point == "sleep:wake" && t.Chance("sw-app", 600)) || (strings.HasPrefix(tk.point, "lmdb:") && t.Chance("sw-app-txn", 150)) {
 			cur, _ := DumpEnv(e)
 			// where will the sweeper resume? near the largest key among the
 			// markers that disappeared in the last slice
@@ -259,7 +260,7 @@ func runSweeperSim(env *RunEnv) {
 		}
 	}
 	if !done {
-		violate("pass-ends", "pass-did-not-end", "the sweeper pass did not end within 5000 scheduler steps")
+		violate("pass-ends", "pass-did-not-end", "the sweeper pass did not end within 40000 scheduler steps")
 	} else if sweepErr != nil {
 		violate("pass-ends", "pass-error", "the sweeper pass failed: "+sweepErr.Error())
 	}
